@@ -101,6 +101,11 @@ impl FixtureDatabase {
             for stmt in &module.body {
                 self.visit_stmt(stmt, &file_path, is_conftest, content, &line_index);
             }
+
+            // verification hook: the symbolic executor cannot get through the recursive drop glue of the
+            // AST (see /verif/DESIGN.md §9.2); under the verification cfg the tree is leaked instead.
+            #[cfg(pytest_language_server_verif)]
+            std::mem::forget(module);
         }
 
         debug!("Analysis complete for {:?}", file_path);
